@@ -6,7 +6,7 @@ ROOT = os.path.dirname(os.path.dirname(os.path.abspath(__file__)))
 names = sys.argv[1:] or sorted(os.listdir(os.path.join(ROOT, 'seeded')))
 harmless = {'harmless-page-divceil-rename': ['C06', 'C07'], 'harmless-frame-rename-locals': ['C01', 'C03'], 'harmless-message-reorder-arms': ['C04'],
             'harmless-vsign-refactor': ['C13', 'C14'], 'harmless-sign-refactor': ['C10'], 'harmless-serial-refactor': ['C16'], 'harmless-frame-io-refactor': ['C15', 'C02']}
-extra = {'C16-m8': ['C15'], 'C17-m8': ['C04'], 'C08-m7': ['C13'], 'C08-m8': ['C10'], 'C13-m8': ['C14'], 'C14-m8': ['C13'], 'C14-m7': ['C13'], 'C05-m5': ['C15'], 'C05-m6': ['C15'], 'C16-m6': ['C15'], 'C17-m6': ['C15'], 'C18-m6': ['C04'], 'C12-m5': ['C19'], 'C19-m5': ['C13'], 'C08-m5': ['C13'], 'C08-m6': ['C13'], 'C02-m5': ['C15'], 'C08-m1': ['C10'], 'C08-m2': ['C10'], 'C08-m3': ['C13'], 'C08-m4': ['C10'], 'C02-m4': ['C15'], 'C05-m1': ['C01'], 'C05-m2': ['C01'], 'C19-m2': ['C13'], 'C16-m2': ['C15'], 'C17-m1': ['C16'], 'C17-m2': ['C15']}
+extra = {'C08-m9': ['C13'], 'C08-m10': ['C09'], 'C16-m8': ['C15'], 'C17-m8': ['C04'], 'C08-m7': ['C13'], 'C08-m8': ['C10'], 'C13-m8': ['C14'], 'C14-m8': ['C13'], 'C14-m7': ['C13'], 'C05-m5': ['C15'], 'C05-m6': ['C15'], 'C16-m6': ['C15'], 'C17-m6': ['C15'], 'C18-m6': ['C04'], 'C12-m5': ['C19'], 'C19-m5': ['C13'], 'C08-m5': ['C13'], 'C08-m6': ['C13'], 'C02-m5': ['C15'], 'C08-m1': ['C10'], 'C08-m2': ['C10'], 'C08-m3': ['C13'], 'C08-m4': ['C10'], 'C02-m4': ['C15'], 'C05-m1': ['C01'], 'C05-m2': ['C01'], 'C19-m2': ['C13'], 'C16-m2': ['C15'], 'C17-m1': ['C16'], 'C17-m2': ['C15']}
 for name in names:
     d = os.path.join(ROOT, 'seeded', name)
     if not os.path.exists(os.path.join(d, 'patch.diff')):
@@ -30,7 +30,7 @@ for name in names:
         results = {}
         for p in pids:
             t0 = time.time()
-            env = dict(os.environ, VERIF_REPO=tmp, VERIF_NO_EVIDENCE='1')
+            env = dict(os.environ, VERIF_REPO=tmp, VERIF_NO_EVIDENCE='1', VERIF_KANI_SLOT=os.environ.get('VERIF_KANI_SLOT', os.path.basename(tmp)))
             q = subprocess.run([os.path.join(ROOT, 'check'), p, '--tier', 'quick'], cwd=ROOT, env=env, capture_output=True, text=True)
             out = q.stdout
             viol = [l for l in out.split('\n') if l.startswith('VIOLATION')]
